@@ -14,7 +14,7 @@ use serde_json::json;
 pub const PROP: PropDef = PropDef {
     id: "C05",
     parts,
-    rule: "2 (quick) / 3 (thorough) loop iterations, each triggered by {timers, scheduled request, on-demand request} (exhaustive), with per-iteration environment answers: check decision {Ok, OkUpdateDeferred} x 8 parameter combinations or {TooSoon, Throttled, Denied}; server {no update, update for 1 of 2 apps, transport failures then success}; install decision {ok, deferred, denied}; plan {ok, error}; install {installed, failed}; reboot needed {yes, no}; reboot-allowed sequence {yes; no then yes on the timer; no then yes on an on-demand request; no, no, yes} - bounded to 3 / 4 non-default answers per history; plus every invalid app set (empty id, version 0 / 0.0 / 0.0.0.0, at each position of 1-3 apps); invariants on the call log of policy, installer and HTTP; non-trivial = history contains a negative decision or an install",
+    rule: "2 (quick) / 3 (thorough) loop iterations, each triggered by {timers, scheduled request, on-demand request} (exhaustive), with per-iteration environment answers: check decision {Ok, OkUpdateDeferred} x 8 parameter combinations or {TooSoon, Throttled, Denied}; server {no update, update for 1 of 2 apps, transport failures then success}; install decision {ok, deferred, denied}; plan {ok, error}; install {installed, failed}; reboot needed {yes, no}; reboot-allowed sequence {yes; no then yes on the timer; no then yes on an on-demand request; no, no, yes; no, no to an on-demand request, yes on the timer} - bounded to 3 / 4 non-default answers per history; plus every invalid app set (empty id, version 0 / 0.0 / 0.0.0.0, at each position of 1-3 apps); invariants on the call log of policy, installer and HTTP; non-trivial = history contains a negative decision or an install",
     assumptions: &["one-shot checks bypass the check decision by design; the consent clauses are checked on continuous operation", "pings during the reboot wait are not 'requests of that check' and are exempt from the parameter clause"],
 };
 
@@ -100,7 +100,7 @@ impl Director for D {
     }
     fn reboot_allowed(&mut self, w: &mut Inner, _o: Src) -> bool {
         if self.reboot_seq.is_none() {
-            let q = w.choose("reboot.seq", 4);
+            let q = w.choose("reboot.seq", 5);
             self.reboot_seq = Some(q);
             w.note(format!("seq{q}"));
         }
@@ -108,6 +108,7 @@ impl Director for D {
         match self.reboot_seq.unwrap() {
             0 => true,
             1 | 2 => self.reboot_asked >= 2,
+            // 3: no, no (timer), yes (timer); 4: no, no to an on-demand request, yes on the timer
             _ => self.reboot_asked >= 3,
         }
     }
@@ -214,8 +215,13 @@ fn run_hist(ctx: &RunCtx, tier: Tier) -> RunOut {
             }
             let asked_ondemand_path = {
                 let g = e.w.lock().unwrap();
-                // sequence 2 = "yes on an on-demand request": recognisable by the note the director leaves
-                g.log.iter().rev().take_while(|o| !matches!(o, Obs::Ev(Ev::State(State::WaitingForReboot)))).any(|o| matches!(o, Obs::Note(n) if n == "seq2"))
+                // sequences 2 and 4 involve an on-demand request (4: only as the first step of the
+                // wait, it is refused); recognisable by the note the director leaves
+                let seg: Vec<&Obs> = g.log.iter().rev().take_while(|o| !matches!(o, Obs::Ev(Ev::State(State::WaitingForReboot)))).collect();
+                let seq2 = seg.iter().any(|o| matches!(o, Obs::Note(n) if n == "seq2"));
+                let seq4 = seg.iter().any(|o| matches!(o, Obs::Note(n) if n == "seq4"));
+                let ondemand_asked = seg.iter().any(|o| matches!(o, Obs::RebootAllowed { opts: Src::OnDemand, .. }));
+                seq2 || (seq4 && !ondemand_asked)
             };
             if asked_ondemand_path {
                 fire(&mut e, |kind, d| kind == OpKind::Gate && d == c1 as u64);
@@ -412,7 +418,7 @@ fn parts(tier: Tier) -> Vec<PartDef> {
         PartDef::new(
             "consent-histories",
             Cfg::new("C05/consent-histories").dev(d).free(&["trigger"]),
-            json!({"iterations": tier.pick(2, 3), "triggers": ["timers", "scheduled request", "on-demand request"], "check_decisions": 19, "server": 3, "install_decisions": 3, "plan": 2, "install": 2, "reboot_needed": 2, "reboot_sequences": 4,
+            json!({"iterations": tier.pick(2, 3), "triggers": ["timers", "scheduled request", "on-demand request"], "check_decisions": 19, "server": 3, "install_decisions": 3, "plan": 2, "install": 2, "reboot_needed": 2, "reboot_sequences": 5,
                    "exploration": format!("triggers exhaustive; at most {d} non-default environment answers per history")}),
             move |ctx| run_hist(ctx, tier),
         ),
